@@ -247,3 +247,16 @@ PROPS["C11"] = dict(
         R("C11.quic_ssh_stacks", "swarms", "TestC11Net", 32, 1200, shrink=10, quick=dict(checks=32, shards=4, timeout=600)),
     ],
 )
+
+PROPS["C12"] = dict(
+    level="exploration",
+    technique="property-based testing (rapid): generated blocked-call vectors x Close timings on generated stacks; return/err/latency oracle, sentinel for late callbacks, goroutine stack-dump diff",
+    level_text="For generated stacks the harness blocks a generated number of Receive/ServeAsk calls with non-expiring contexts, keeps traffic in flight and closes at a generated point (also concurrently and twice); it requires every call to return an error promptly, no callback to start after Close returned, later calls to fail promptly and all goroutines with library frames to be gone after a grace period. Holds on everything generated.",
+    level_note="'Promptly' is 3 s for calls blocked at Close and 1 s for later calls, against a faulty behaviour of 'never'. The interleaving of Close with in-flight deliveries is sampled, not enumerated.",
+    design_ref="4/C12",
+    assumptions=["3 s / 1 s thresholds separate 'promptly' from 'never'", "goroutines are attributed to the library by a frame of the module path in their stack"],
+    subs=[
+        R("C12.close_generated_stacks", "swarms", "TestC12Close", 160, 6000, shrink=10, quick=dict(checks=160, shards=4, timeout=900)),
+        R("C12.close_ssh", "swarms", "TestC12CloseSSH", 12, 400, shrink=10, quick=dict(checks=12, shards=2, timeout=600)),
+    ],
+)
